@@ -125,6 +125,21 @@ CLAIMS["C19"] = {
     "design_ref": "DESIGN.md section 8.5",
 }
 
+CLAIMS["C05"] = {
+    "technique": "contract-based deductive verification (Verus) of the extracted real functions; ICU4X's category function uninterpreted",
+    "text": "Partial, unbounded proof of the parse-time half only: for a literal foreign-key count, "
+            "Plurals::populate_with_count_arg renders the form of exactly the category ICU4X returns for that count, "
+            "locale and rule type (cardinal/ordinal), and `other` when that form was not written; "
+            "PluralForm::from_icu_category is the identity on the six categories; renaming the count variable "
+            "(populate_with_new_key) keeps the rule type and every written form.",
+    "note": "The CLDR category itself is ICU4X (external): an uninterpreted function, so 'the form CLDR assigns' means "
+            "'the form ICU4X's PluralRules::category_for returns'. Not covered: merging of `_zero|_one|..` suffixed keys "
+            "(string code), cardinal/ordinal mixing and collision errors, unused-form warnings (set difference over ICU "
+            "categories), the generated run-time `match`, the plural-rules cache. Assumed: a float literal converts to a "
+            "FixedDecimal (finite JSON number); lawfulness of PluralForm's derived ordering.",
+    "design_ref": "DESIGN.md section 8.5",
+}
+
 NOT_APPLICABLE = {
     "C01": "text -> tree -> tokens -> HTML: byte-offset &str slicing (no str offset theory in Verus, >240 s for 4 bytes in Kani), &mut tree rewriting, quote! output; no function on the path can carry a checkable contract",
     "C02": "relates the outputs of two code generators after rustc compiled them; token streams have no semantics in either verifier",
